@@ -10,7 +10,14 @@ Open Scope Z_scope.
 Definition strategy_code (s : strategy) : Z := match s with MostExpired => 0 | LRU => 1 | LFU => 2 end.
 
 (* primitives of the read path *)
-Definition read_prims (now : Z) : prims := fun f args s =>
+Definition read_prims (rc : string) (now : Z) : prims := fun f args s =>
+  if String.eqb f (rc ++ ".Stat.Add")
+  then match args with
+       | [_; VStr m; VF (FConst 1 1); VStr "name"; _] => Some (VNil, emit "stat" [VStr m] s)
+       | _ => None
+       end
+  else if String.eqb f (rc ++ ".Log.logDebug") then Some (VNil, s)
+  else
   match f, args with
   | "ts", [v] => Some (v, s)
   | "time.Now", [] => Some (VZ now, emit "time.Now" [] s)
@@ -21,8 +28,6 @@ Definition read_prims (now : Z) : prims := fun f args s =>
       | Some (VZ old) => Some (VZ (old + d), emit "store" [VStr p; VZ (old + d)] (bind p (VZ (old + d)) s))
       | _ => None
       end
-  | "c.Stat.Add", [_; VStr m; VF (FConst 1 1); VStr "name"; _] => Some (VNil, emit "stat" [VStr m] s)
-  | "c.Log.logDebug", _ => Some (VNil, s)
   | "$zero", [VStr "V"] => Some (VZ 0, s)          (* the zero value of the generic value type *)
   | "$zero", [VStr "error"] => Some (VNil, s)
   | _, _ => None
@@ -30,10 +35,14 @@ Definition read_prims (now : Z) : prims := fun f args s =>
 
 Definition no_fcmp (op : string) (a b : fterm) : bool := false.
 
-Definition read_leaves (c : bcfg) (has_log has_stat : bool) (e : entry) : list (string * value) :=
-  [("c.Log.logDebug", VPtr has_log "logDebug"); ("c.Stat", VPtr has_stat "Stat"); ("c.Config.Name", VStr "name");
-   ("c.Config.EvictionStrategy", VZ (strategy_code (c_strategy c)));
-   ("cacheEntry.E", VZ (eE e)); ("cacheEntry.C", VZ (eC e)); ("cacheEntry.V", VZ (eV e))].
+(* [rc] / [x]: the names the source gives the receiver and the entry parameter (a renaming does not matter) *)
+Definition recv_name (f : gfunc) : string := nth 0 (gf_params f) "c".
+Definition entry_name (f : gfunc) : string := nth 2 (gf_params f) "cacheEntry".
+
+Definition read_leaves (rc x : string) (c : bcfg) (has_log has_stat : bool) (e : entry) : list (string * value) :=
+  [(rc ++ ".Log.logDebug", VPtr has_log "logDebug"); (rc ++ ".Stat", VPtr has_stat "Stat"); (rc ++ ".Config.Name", VStr "name");
+   (rc ++ ".Config.EvictionStrategy", VZ (strategy_code (c_strategy c)));
+   (x ++ ".E", VZ (eE e)); (x ++ ".C", VZ (eC e)); (x ++ ".V", VZ (eV e))].
 
 (* what a caller can observe of a PrepareRead call: the result in the vocabulary of the model, the entry's
    counter afterwards, the metric events *)
@@ -49,10 +58,10 @@ Fixpoint stat_events (l : list effect) : option (list mevent) :=
   | _ :: r => stat_events r
   end.
 
-Definition read_view (vs : list value) (s : st) : option (bres * Z * list mevent) :=
+Definition read_view (x : string) (vs : list value) (s : st) : option (bres * Z * list mevent) :=
   match vs with
   | [v; er] =>
-      match lookup "cacheEntry.C" (env s), lookup "cacheEntry.V" (env s), stat_events (eff s) with
+      match lookup (x ++ ".C") (env s), lookup (x ++ ".V") (env s), stat_events (eff s) with
       | Some (VZ cnt), Some (VZ held), Some evs =>
           match v, er with
           | VZ x, VNil => Some (RVal x, cnt, evs)
@@ -73,9 +82,9 @@ Definition model_found (c : bcfg) (now : Z) (e : entry) (has_stat : bool) : bres
 
 Definition run_prepare_read (f : gfunc) (generic : bool) (c : bcfg) (now : Z) (has_log has_stat found : bool) (e : entry)
   : option (bres * Z * list mevent) :=
-  run (read_prims now) no_fcmp no_loop read_view (fun _ => None) f
+  run (read_prims (recv_name f) now) no_fcmp no_loop (read_view (entry_name f)) (fun _ => None) f
       [VPtr true "c"; VPtr true "ctx"; VPtr found "cacheEntry"; VB found]
-      (read_leaves c has_log has_stat e) (fun _ => None).
+      (read_leaves (recv_name f) (entry_name f) c has_log has_stat e) (fun _ => None).
 
 Ltac red_all := cbv -[Z.eqb Z.ltb Z.leb Z.add Z.sub Z.mul Z.opp].
 Ltac close_cmp :=
